@@ -254,52 +254,72 @@ Qed.
 
 (* ---------- NTS pool bookkeeping ---------- *)
 
-Definition NSafe (n : nat) (cur : list (Z * Z)) : Prop :=
-  (length cur <= n)%nat /\ NoDup (map snd cur).
+Definition NSafe (n : nat) (cur : list (Z * (Z * Z))) : Prop :=
+  (length cur <= n)%nat /\ NoDup (nnames cur) /\ NoDup (naddrs cur).
+
+Lemma NoDup_snoc : forall (l : list Z) x, ~ In x l -> NoDup l -> NoDup (l ++ [x]).
+Proof.
+  intros l x Hx Hl.
+  assert (H : NoDup (x :: l)) by (constructor; auto).
+  eapply Permutation_NoDup; [| exact H].
+  change (x :: l) with ([x] ++ l). apply Permutation_app_comm.
+Qed.
 
 Lemma nts_iter_spec : forall n k outs st,
-  (length (ncurrent st) + k <= n)%nat -> NoDup (map snd (ncurrent st)) ->
-  NSafe n (ncurrent (fst (nts_iter k outs st))).
+  (length (ncurrent st) + k <= n)%nat ->
+  NoDup (nnames (ncurrent st)) -> NoDup (naddrs (ncurrent st)) ->
+  NSafe n (ncurrent (fst (nts_iter_with true k outs st))).
 Proof.
-  intros n k; induction k as [| k IH]; intros outs st Hlen Hnd; cbn.
-  - split; auto; lia.
-  - destruct outs as [| o r]; cbn; [split; auto; lia |].
-    destruct o as [| srv remote resolves | |]; cbn; try (split; auto; lia).
+  intros n k; induction k as [| k IH]; intros outs st Hlen Hnd Hna; cbn.
+  - repeat split; auto; lia.
+  - destruct outs as [| o r]; cbn; [repeat split; auto; lia |].
+    destruct o as [| srv remote resolved | |]; cbn; try (repeat split; auto; lia).
     + set (key := match srv with Some s => s | None => remote end).
       destruct (has_remote key (ncurrent st)) eqn:Hh; [apply IH; auto; lia |].
-      destruct resolves; [| apply IH; auto; lia].
-      cbn. apply IH; cbn.
+      destruct resolved as [a |]; [| apply IH; auto; lia].
+      destruct (has_addr a (ncurrent st)) eqn:Ha; cbn; [apply IH; auto; lia |].
+      apply IH; cbn.
       * rewrite app_length; cbn; lia.
-      * rewrite map_app; cbn. unfold has_remote in Hh. apply memZ_false in Hh.
-        assert (H : NoDup (key :: map snd (ncurrent st))) by (constructor; auto).
-        eapply Permutation_NoDup; [| exact H].
-        change (key :: map snd (ncurrent st)) with ([key] ++ map snd (ncurrent st)).
-        apply Permutation_app_comm.
+      * unfold nnames. rewrite map_app; cbn. apply NoDup_snoc; auto.
+        unfold has_remote in Hh. apply memZ_false in Hh. exact Hh.
+      * unfold naddrs. rewrite map_app; cbn. apply NoDup_snoc; auto.
+        unfold has_addr in Ha. apply memZ_false in Ha. exact Ha.
     + apply IH; auto; lia.
 Qed.
 
 Theorem nts_pool_safe : forall n ops st,
   NSafe n (ncurrent st) -> NSafe n (ncurrent (nts_exec n ops st)).
 Proof.
+  unfold nts_exec.
   intros n ops; induction ops as [| o ops IH]; intros st HS; cbn; auto.
   destruct o as [outs | id]; apply IH.
-  - destruct HS as [Hlen Hnd]. unfold nts_try_spawn. apply nts_iter_spec; auto; lia.
-  - destruct HS as [Hlen Hnd]. split; cbn.
-    + pose proof (filter_length_le _ (fun p : Z * Z => negb (fst p =? id)) (ncurrent st)). lia.
-    + apply NoDup_map_filter; auto.
+  - destruct HS as (Hlen & Hnd & Hna). unfold nts_try_spawn_with. apply nts_iter_spec; auto; lia.
+  - destruct HS as (Hlen & Hnd & Hna). repeat split; cbn.
+    + pose proof (filter_length_le _ (fun p : Z * (Z * Z) => negb (fst p =? id)) (ncurrent st)). lia.
+    + unfold nnames. apply NoDup_map_filter; auto.
+    + unfold naddrs. apply NoDup_map_filter; auto.
 Qed.
 
 Theorem nts_pool_safe_from_start : forall n ops,
   NSafe n (ncurrent (nts_exec n ops (mkntspool [] 0))).
-Proof. intros; apply nts_pool_safe. split; cbn; [lia | constructor]. Qed.
+Proof. intros; apply nts_pool_safe. repeat split; cbn; [lia | constructor | constructor]. Qed.
+
+(* the loop before the repair (no address test): two names, one address *)
+Theorem nts_pool_unrepaired_not_distinct :
+  exists n ops, ~ NoDup (naddrs (ncurrent (nts_exec_unrepaired n ops (mkntspool [] 0)))).
+Proof.
+  exists 2%nat, [NtsTrySpawn [KeOk None 1 (Some 7); KeOk None 2 (Some 7)]]. vm_compute.
+  intros H. inversion H; subst. apply H2. left; reflexivity.
+Qed.
 
 (* ---------- the functions compared with the real NtsPoolSpawner run the model of the theorem ---------- *)
 Lemma run_nts_ops_final : forall n ops st,
   exists pre, run_nts_ops n ops st = pre ++ nts_final (nts_exec n ops st).
 Proof.
+  unfold nts_exec.
   intros n ops; induction ops as [| o r IH]; intros st.
   - exists []. reflexivity.
-  - destruct o as [outs | id]; cbn [run_nts_ops nts_exec].
+  - destruct o as [outs | id]; cbn [run_nts_ops nts_exec_with].
     + destruct (IH (fst (nts_try_spawn n st outs))) as [pre H]. rewrite H.
       eexists (_ :: _ :: _ ++ _ :: pre). cbn. rewrite <- app_assoc. reflexivity.
     + destruct (IH (nts_removed st id)) as [pre H]. rewrite H.
@@ -309,9 +329,10 @@ Qed.
 Lemma run_srv_ops_final : forall n ops st,
   exists pre, run_srv_ops n ops st = pre ++ nts_final (nts_exec n (srv_to_nts n ops st) st).
 Proof.
+  unfold nts_exec.
   intros n ops; induction ops as [| o r IH]; intros st.
   - exists []. reflexivity.
-  - destruct o as [q | id]; cbn [run_srv_ops srv_to_nts nts_exec].
+  - destruct o as [q | id]; cbn [run_srv_ops srv_to_nts nts_exec_with].
     + set (outs := fst (srv_outcomes (n - length (ncurrent st)) q st)).
       destruct (IH (fst (nts_try_spawn n st outs))) as [pre H]. rewrite H.
       eexists (_ :: _ :: _ ++ _ :: _ :: pre). cbn. rewrite <- app_assoc. reflexivity.
